@@ -197,3 +197,56 @@ package bchutil
 //@ func bchutil.Hash160
 //@   ensures fresh(result) && unique(result) && len(result) == 20
 //@   modifies nothing
+
+// ---- WIF (C06)
+
+//@ func bchutil.paddedAppend
+//@   requires size <= 64 && disjoint(dst, src)
+//@   ensures len(result) == len(dst) + (int(size) > len(src) ? int(size) - len(src) : 0) + len(src)
+//@   ensures forall j :: 0 <= j && j < len(dst) ==> result[j] == old(dst[j])
+//@   ensures forall j :: len(dst) <= j && j < len(result) - len(src) ==> result[j] == 0
+//@   ensures forall j :: 0 <= j && j < len(src) ==> result[len(result) - len(src) + j] == src[j]
+//@   ensures cap(dst) >= len(dst) + (int(size) > len(src) ? int(size) - len(src) : 0) + len(src) ==> sameobj(result, dst) && result.off == dst.off && cap(result) == cap(dst)
+//@   ensures sameobj(result, dst) || fresh(result)
+//@   modifies *dst
+//@   loop 1 invariant 0 <= i && len(dst) == len(dst0) + i && i <= (int(size) > len(src) ? int(size) - len(src) : 0)
+//@   loop 1 invariant forall j :: 0 <= j && j < len(dst0) ==> dst[j] == old(dst0[j])
+//@   loop 1 invariant forall j :: len(dst0) <= j && j < len(dst) ==> dst[j] == 0
+//@   loop 1 invariant cap(dst0) >= len(dst0) + (int(size) > len(src) ? int(size) - len(src) : 0) + len(src) ==> sameobj(dst, dst0) && dst.off == dst0.off && cap(dst) == cap(dst0)
+//@   loop 1 invariant sameobj(dst, dst0) || fresh(dst)
+//@   loop 1 invariant forall j :: 0 <= j && j < len(src) ==> src[j] == old(src[j])
+//@   loop 1 decreases int(size) - len(src) - i
+
+//@ func bchutil.DecodeWIF
+//@   ensures err == nil ==> result0 != nil && fresh(result0) && result0.PrivKey != nil
+//@   ensures err != nil ==> result0 == nil
+//@   modifies nothing
+//@   assert after Decode#1: freshornil($ret)
+//@   assert after DoubleHashB#1: (len(decoded) == 38 && decoded[33] == 1 && len($arg0) == 34) || (len(decoded) == 37 && len($arg0) == 33)
+//@   assert after DoubleHashB#1: sameobj($arg0, decoded) && $arg0.off == decoded.off
+//@   assert after Equal#1: len($arg0) == 4 && len($arg1) == 4 && sameobj($arg1, decoded) && $arg1.off == decoded.off + len(decoded) - 4
+//@   assert after PrivKeyFromBytes#1: len($arg1) == 32 && sameobj($arg1, decoded) && $arg1.off == decoded.off + 1
+//@   assert after PrivKeyFromBytes#1: compress == (len(decoded) == 38)
+
+//@ func bchutil.(*WIF).String
+//@   requires w.PrivKey != nil && w.PrivKey.D != nil && *w.PrivKey.D >= 0 && *w.PrivKey.D < 115792089237316195423570985008687907853269984665640564039457584007913129639936
+//@   modifies nothing
+//@   assert after DoubleHashB#1: len($arg0) == (w.CompressPubKey ? 34 : 33) && $arg0[0] == w.netID && (w.CompressPubKey ==> $arg0[33] == 1)
+//@   assert after Bytes#1: len($ret) <= 32 && big.be($ret, len($ret)) == *w.PrivKey.D
+//@   assert after paddedAppend#1: len($ret) == 33 && $ret[0] == w.netID && (forall j :: 1 <= j && j < 33 - len($arg2) ==> $ret[j] == 0) && (forall j :: 0 <= j && j < len($arg2) ==> $ret[33 - len($arg2) + j] == $arg2[j])
+//@   assert after Encode#1: len($arg0) == (w.CompressPubKey ? 38 : 37)
+
+//@ func bchutil.(*WIF).IsForNet
+//@   requires net != nil
+//@   ensures result == (w.netID == net.PrivateKeyID)
+//@   modifies nothing
+
+//@ func bchutil.(*WIF).SerializePubKey
+//@   requires w.PrivKey != nil
+//@   ensures len(result) == (w.CompressPubKey ? 33 : 65)
+//@   modifies nothing
+
+//@ func bchutil.NewWIF
+//@   ensures net == nil ==> err != nil && result0 == nil
+//@   ensures net != nil ==> err == nil && result0 != nil && fresh(result0) && result0.PrivKey == privKey && result0.CompressPubKey == compress && result0.netID == net.PrivateKeyID
+//@   modifies nothing
